@@ -57,7 +57,7 @@ def multimerge(dfs, on, suffixes=None, **kwargs):
         return reduce(lambda left, right: pd.merge(left, right, right_index=True, left_index=True, **merge_kwargs), dfs_new)
     if on == "index":
         return reduce(lambda left, right: pd.merge(left, right, right_index=True, left_index=True, **merge_kwargs), dfs)
-    return reduce(lambda left, right: pd.merge(left, right, on, **merge_kwargs), dfs)
+    return reduce(lambda left, right: pd.merge(left, right, on=on, **merge_kwargs), dfs)
 
 def cdr3pred(string):
     return isvalidaa(string) and string[0] == "C" and string[-1] in ["F", "W", "C"]
